@@ -41,6 +41,8 @@ var rtCorpus = []string{
 	`rule R1 "assignment forms" { when F.C == 0 then F.A += 5; F.A -= 1; F.A *= 3; F.X = 9.0; F.X /= 2; F.S = "a"; F.S += "b"; F.C = 1; }`,
 	`rule R1 "strings" { when F.S.Len() < 3 && F.S.ToUpper() != "ZZZ" then F.S = F.S + "z"; F.Log(F.S.ToUpper()); } rule R2 "then" salience -7 { when F.S == "zzz" && F.Hits == 0 then F.Hit(); F.Log(F.S); Complete(); }`,
 	`rule R1 "retract" salience 5 { when F.A == 0 then F.Log("once"); Retract("R1"); } rule R2 "count" { when F.B < 2 then F.B = F.B + 1; F.Log("c"); }`,
+	`rule R1 "constants" { when F.S == "" && F.A > -3 && F.X < 2.5e3 && !F.Flag && F.B != 0x7FFFFFFFFFFFFFFF then F.S = "Grüezi, 世界!"; F.Trace = "tab\there \"q\""; F.A = -9223372036854775807; F.X = -0.000001; F.Flag = true; F.C = 017; }`,
+	`rule R1 "unicode condition" { when F.S == "z" && F.Trace != "Zürich" then F.Trace = "Zürich"; F.Log("ü"); } rule R2 "after" salience -1 { when F.Trace == "Zürich;ü;" || F.Trace == "Zürichü;" then F.C = 5; }`,
 	`rule R1 "precedence" { when F.A + 2 * 3 == 6 && (F.A + 2) * 3 == 6 && F.B == 0 then F.B = 1 + 2 * 3; F.C = (1 + 2) * 3; }`,
 }
 
@@ -109,5 +111,5 @@ func TestReplaySearchStoreLoadBehaviour(t *testing.T) {
 			cur = next
 		}
 	}
-	fmt.Printf("SEARCHED: %d (rule set, fact state, round) combinations, no difference\n", n)
+	fmt.Printf("BOUNDED-CASES: %d (rule set, fact state, round) combinations, no difference between original and loaded knowledge base\n", n)
 }
